@@ -352,8 +352,11 @@ class PlanJoinTablesQuery:
         query = copy.deepcopy(query_in)
 
         # replace sub selects, with identifiers with links to original selects
-        def replace_subselects(node, **args):
+        def replace_subselects(node, is_table=False, **args):
             if isinstance(node, Select) or isinstance(node, NativeQuery) or isinstance(node, ast.Data):
+                if not is_table:
+                    # a sub-query inside a join condition: the join step has no way to evaluate it
+                    raise PlanningException('Sub-query in a join condition is not supported')
                 name = f't_{id(node)}'
                 node2 = Identifier(name, alias=node.alias)
 
